@@ -12,7 +12,7 @@ Definition ex_text : list N := of_ascii [97; 61; 49; 10; 98; 61; 50; 10; 97; 61;
 Definition ex_ref_text : list N := of_ascii [97; 61; 49; 10; 98; 61; 57; 10]%nat.
 
 Definition ex_entry (s : list N) (id : nat) (k : Z) (junk : bool) (sp vs : span) : @entity Z :=
-  mkEntity id k junk (entry_position s sp) (entry_value_position s (Some vs)).
+  mkEntity id k junk [] (entry_position s sp) (entry_value_position s (Some vs)).
 
 Definition ex_cur : list (@entity Z) :=
   [ex_entry ex_text 0 1 false (0, 3) (2, 3);
@@ -25,7 +25,8 @@ Definition ex_ref : list (@entity Z) :=
    ex_entry ex_ref_text 11 2 false (4, 7) (6, 7)].
 
 (* a=1 equals the reference's a=1; nothing else is equal *)
-Definition ex_equals (a b : @entity Z) : bool := Nat.eqb (e_id a) 0 && Nat.eqb (e_id b) 10.
+Definition ex_equals (a b : @entity Z) : result bool :=
+  Ok (Nat.eqb (e_id a) 0 && Nat.eqb (e_id b) 10).
 
 Definition ex_checker : @checker Z Z :=
   fun e _ => if Nat.eqb (e_id e) 1 then [mkCres LWarning (ValuePos (VOff 0)) 7 0] else [].
